@@ -30,3 +30,229 @@ def np_asarray(interp, args, kwargs, node):
     if isinstance(v, VObj):
         return interp.born(E.opaque(interp, "numpy.asarray", args, kwargs, "ndarray"))
     raise Unsupported(f"np.asarray of {v!r}")
+
+
+def keep_id(src, dst):
+    for a in ("sid", "poly", "vec_name", "labels"):
+        if getattr(src, a, None) is not None and a != "labels":
+            setattr(dst, a, getattr(src, a))
+    return dst
+
+
+def as_ndarray(interp, v):
+    """positional ndarray view of a list / tuple / Series / ndarray value (same elements, same identity)"""
+    if isinstance(v, VList) and isinstance(v.content, (SymSeq, ConcreteSeq)):
+        if v.kind == "ndarray":
+            return v
+        if isinstance(v.content, SymSeq) and isinstance(v.content.elem_kind, (vec.T_IntT, vec.T_RealT)) \
+                and getattr(v, "poly", None) is None:
+            vec.base_poly(interp, v)
+        c = v.content
+        r = VList(SymSeq(c.length, c.at, c.elem_kind) if isinstance(c, SymSeq) else ConcreteSeq(list(c.items)), "ndarray")
+        return interp.born(keep_id(v, r))
+    raise Unsupported(f"as_ndarray of {v!r}")
+
+
+EXTERNS = E.EXTERNS
+EXTERNS["numpy.asarray"] = EXTERNS["numpy.array"] = lambda interp, args, kwargs, node: (
+    as_ndarray(interp, args[0]) if isinstance(args[0], VList) and isinstance(args[0].content, (SymSeq, ConcreteSeq))
+    else interp.born(E.opaque(interp, "numpy.asarray", args, kwargs, "ndarray")))
+
+
+def _series_to_numpy(interp, sv, args, kwargs, node):
+    interp.ctx.assumed.add("extern:pandas.Series.to_numpy (positional values)")
+    r = as_ndarray(interp, VList(sv.content, "list"))
+    return keep_id(sv, r)
+
+
+E.METHODS[("Series", "to_numpy")] = _series_to_numpy
+
+
+def _arr_getattr(interp, base, attr, node):
+    if isinstance(base, VList) and base.kind == "ndarray" and isinstance(base.content, (SymSeq, ConcreteSeq)):
+        if attr == "shape":
+            return VTuple([VInt(interp.seq_len(base))])
+        if attr == "size":
+            return VInt(interp.seq_len(base))
+    return None
+
+
+E.HOOKS["getattr"].append(_arr_getattr)
+
+
+# ---- counting: np.unique / np.intersect1d with the imported lemma L-count -------------------
+
+def seq_id(v):
+    sid = getattr(v, "sid", None)
+    if sid is None:
+        raise Unsupported("sequence without identity (needed for coinc / cross)")
+    return sid
+
+
+def coinc_sym(interp, v):
+    """number of ordered pairs of distinct positions of v holding equal elements"""
+    sid = seq_id(v)
+    c = z3.Int(f"coinc[{sid}]")
+    ctx = interp.ctx
+    if not hasattr(ctx, "coinc_seqs"):
+        ctx.coinc_seqs = {}
+    if sid in ctx.coinc_seqs:
+        return c
+    n = interp.seq_len(v)
+    ctx.assume(z3.And(c >= 0, c <= n * (n - 1)), "spec:coinc is a count of ordered pairs of distinct positions (0 <= coinc <= N(N-1))")
+    # lemma L-coinc-cong (Lean): sequences with the same equality pattern have the same coinc.
+    # Used in Skolemised contrapositive form (quantifier-free): if the counts differ, some pair of
+    # positions (i0, j0) is equal in one sequence and different in the other.
+    for sid2, (v2, c2) in ctx.coinc_seqs.items():
+        n2 = interp.seq_len(v2)
+        i0, j0 = ctx.fresh("i_cc", z3.IntSort()), ctx.fresh("j_cc", z3.IntSort())
+        differ = z3.And(0 <= i0, i0 < n, 0 <= j0, j0 < n,
+                        interp.veq(interp.seq_at(v, i0), interp.seq_at(v, j0)) !=
+                        interp.veq(interp.seq_at(v2, i0), interp.seq_at(v2, j0)))
+        ctx.assume(z3.Implies(n == n2, z3.Or(c == c2, differ)),
+                   "lemma:L-coinc-cong (Lean) equal length and equal equality pattern imply equal coinc")
+    ctx.coinc_seqs[sid] = (v, c)
+    return c
+
+
+def cross_sym(interp, a, b):
+    key = (seq_id(a), seq_id(b))
+    c = z3.Int(f"cross[{key[0]},{key[1]}]")
+    ctx = interp.ctx
+    if not hasattr(ctx, "cross_seqs"):
+        ctx.cross_seqs = {}
+    if key in ctx.cross_seqs:
+        return c
+    na, nb = interp.seq_len(a), interp.seq_len(b)
+    ctx.assume(z3.And(c >= 0, c <= na * nb), "spec:cross is a count of position pairs (0 <= cross <= N1*N2)")
+    for key2, (a2, b2, c2) in ctx.cross_seqs.items():
+        i0, j0 = ctx.fresh("i_cx", z3.IntSort()), ctx.fresh("j_cx", z3.IntSort())
+        differ = z3.And(0 <= i0, i0 < na, 0 <= j0, j0 < nb,
+                        interp.veq(interp.seq_at(a, i0), interp.seq_at(b, j0)) !=
+                        interp.veq(interp.seq_at(a2, i0), interp.seq_at(b2, j0)))
+        ctx.assume(z3.Implies(z3.And(na == interp.seq_len(a2), nb == interp.seq_len(b2)), z3.Or(c == c2, differ)),
+                   "lemma:L-coinc-cong (Lean, two-sample form) equal lengths and equal cross-equality pattern imply equal cross")
+    ctx.cross_seqs[key] = (a, b, c)
+    return c
+
+
+@extern("numpy.unique")
+def np_unique(interp, args, kwargs, node):
+    arr = args[0]
+    rc = kwargs.get("return_counts")
+    if not (isinstance(arr, VList) and isinstance(arr.content, SymSeq)):
+        raise Unsupported(f"np.unique of {arr!r}")
+    if "axis" in kwargs or "return_index" in kwargs or "return_inverse" in kwargs:
+        raise Unsupported("np.unique options")
+    ctx = interp.ctx
+    sid = seq_id(arr)
+    if not hasattr(ctx, "memo"):
+        ctx.memo = {}
+    want_counts = rc is not None and concrete_bool(interp.as_bool_term(rc)) is True
+    if ("uniq", sid) in ctx.memo:
+        vals, cnt = ctx.memo[("uniq", sid)]
+        return VTuple([vals, cnt]) if want_counts else vals
+    n = interp.seq_len(arr)
+    nu = z3.Int(f"nuniq[{sid}]")
+    ctx.assume(z3.And(nu >= 0, nu <= n, z3.Implies(n > 0, nu >= 1)), "extern:numpy.unique (sorted distinct values)")
+    ek = arr.content.elem_kind
+    if ek is None:
+        vals = VObj("ndarray", ctx.fresh(f"uniq_{sid}", OBJ))
+    else:
+        vals = types_SeqT(ek, "ndarray", distinct=True).fresh(f"uniq_{sid}", ctx)
+        ctx.assume(vals.content.length == nu)
+    vals.uniq_of = arr
+    cnt = types_SeqT(types_IntT(lo=1), "ndarray").fresh(f"ucnt_{sid}", ctx)
+    ctx.assume(cnt.content.length == nu)
+    cnt.vec_name = f"ucnt_{sid}"
+    vec.base_poly(interp, cnt)
+    cnt.uniq_of = arr
+    s1 = vec.sum_symbol(interp, ((cnt.vec_name, 1),))
+    s2 = vec.sum_symbol(interp, ((cnt.vec_name, 2),))
+    ctx.assume(s1 == n, "extern:numpy.unique(return_counts): multiplicities sum to the length")
+    ctx.assume(s2 - s1 == coinc_sym(interp, arr),
+               "lemma:L-count (Lean) sum_v m_v(m_v-1) = number of ordered coinciding pairs of distinct positions")
+    ctx.memo[("uniq", sid)] = (vals, cnt)
+    return VTuple([interp.born(vals), interp.born(cnt)]) if want_counts else vals
+
+
+from .types import SeqT as types_SeqT, IntT as types_IntT
+
+
+@extern("numpy.intersect1d")
+def np_intersect1d(interp, args, kwargs, node):
+    v1, v2 = args[0], args[1]
+    ri = kwargs.get("return_indices")
+    au = kwargs.get("assume_unique")
+    if getattr(v1, "uniq_of", None) is None or getattr(v2, "uniq_of", None) is None:
+        raise Unsupported("np.intersect1d is modelled for np.unique outputs only")
+    ctx = interp.ctx
+    call = ctx.fresh("isect", z3.IntSort())
+    common = types_SeqT(v1.content.elem_kind, "ndarray", distinct=True).fresh("common", ctx)
+    if not (ri is not None and concrete_bool(interp.as_bool_term(ri)) is True):
+        return common
+    i1 = VObj("intersect_idx")
+    i1.side, i1.of, i1.call = 1, v1.uniq_of, (v1.uniq_of, v2.uniq_of)
+    i2 = VObj("intersect_idx")
+    i2.side, i2.of, i2.call = 2, v2.uniq_of, (v1.uniq_of, v2.uniq_of)
+    ctx.assumed.add("extern:numpy.intersect1d(assume_unique, return_indices): common values with their positions in each argument")
+    return VTuple([common, i1, i2])
+
+
+def _gather_index(interp, base, idx, node):
+    if isinstance(idx, VObj) and idx.tag == "intersect_idx" and isinstance(base, VList):
+        ctx = interp.ctx
+        g = types_SeqT(types_IntT(lo=0), "ndarray").fresh("gather", ctx)
+        g.gather = (idx, getattr(base, "uniq_of", None))
+        return g
+    return None
+
+
+E.HOOKS["index"].append(_gather_index)
+
+
+def _gather_mul(interp, opn, a, b, node):
+    ga, gb = getattr(a, "gather", None), getattr(b, "gather", None)
+    if opn != "Mult" or ga is None or gb is None:
+        return None
+    ia, ca = ga
+    ib, cb = gb
+    ctx = interp.ctx
+    prod = types_SeqT(types_IntT(lo=0), "ndarray").fresh("matched", ctx)
+    prod.vec_name = f"matched{len(getattr(ctx, 'vec_bases', {}))}"
+    vec.base_poly(interp, prod)
+    ok = (ia.call == ib.call and {ia.side, ib.side} == {1, 2} and ca is ia.of and cb is ib.of)
+    if ok:
+        first, second = ia.call
+        s = vec.sum_symbol(interp, ((prod.vec_name, 1),))
+        ctx.assume(s == cross_sym(interp, first, second),
+                   "lemma:L-count (Lean) sum over common values of m_v*m'_v = number of coinciding cross pairs")
+    return prod
+
+
+E.HOOKS["binop"].insert(0, _gather_mul)
+
+
+from . import spec as S
+
+
+@S.spec("coinc")
+def _coinc(interp, args, kwargs, node):
+    return VInt(coinc_sym(interp, args[0]))
+
+
+@S.spec("cross")
+def _cross(interp, args, kwargs, node):
+    return VInt(cross_sym(interp, args[0], args[1]))
+
+
+@S.spec("as_array")
+def _as_array(interp, args, kwargs, node):
+    return as_ndarray(interp, args[0])
+
+
+@S.spec("ucounts")
+def _ucounts(interp, args, kwargs, node):
+    """multiplicity vector of a sample (the counts np.unique(..., return_counts=True) returns)"""
+    r = np_unique(interp, [as_ndarray(interp, args[0])], {"return_counts": VBool(True)}, node)
+    return r.items[1]
